@@ -648,6 +648,10 @@ func (r *PipelineRunner) resolveScheduleAction(pipeline string, ignoreStartDelay
 func (r *PipelineRunner) resolveDequeueJobAction(job *PipelineJob) scheduleAction {
 	// Start the job if it had a start delay but the timer finished
 	ignoreStartDelay := job.StartDelay > 0 && job.startTimer == nil
+	// A job that was accepted without start delay must not wait for a delay that was configured later by a reload
+	if job.StartDelay == 0 {
+		ignoreStartDelay = true
+	}
 	return r.resolveScheduleAction(job.Pipeline, ignoreStartDelay)
 }
 
